@@ -686,7 +686,36 @@ static void catalog_a64() {
   print_forms_from(cb, 2, meta);
 }
 
+// which of serialize_to()'s predicates hold for a real node of every kind (a Compiler program that contains one of each)
+static void node_predicates() {
+  CodeHolder code; code.init(Environment(Arch::kX64));
+  x86::Compiler cc(&code);
+  Section* sec = nullptr; code.new_section(Out(sec), ".p", SIZE_MAX, SectionFlags::kNone, 8);
+  FuncNode* fn = nullptr; cc.add_func_node(Out(fn), FuncSignature::build<void>());
+  cc.nop();
+  Label l = cc.new_label(); cc.bind(l);
+  cc.align(AlignMode::kCode, 16);
+  uint8_t d[4] = {1, 2, 3, 4}; cc.embed(d, 4);
+  cc.embed_label(l, 8); cc.embed_label_delta(l, l, 4);
+  cc.comment("c");
+  BaseMem m; uint64_t v = 7; cc._new_const(Out(m), ConstPoolScope::kLocal, &v, 8);
+  JumpAnnotation* ann = cc.new_jump_annotation(); ann->add_label_id(l.id());
+  cc.jmp(x86::rax, ann);
+  InvokeNode* inv = nullptr; cc.invoke(Out(inv), x86::rax, FuncSignature::build<void>());
+  cc.ret();
+  cc.end_func();
+  if (sec) cc.section(sec);
+  for (BaseNode* n = cc.first_node(); n; n = n->next())
+    printf("NODEPRED %u %d %d %d %d %d %d %d %d %d\n", uint32_t(n->type()), n->is_inst() ? 1 : 0, n->is_label() ? 1 : 0, n->is_const_pool() ? 1 : 0,
+           n->is_align() ? 1 : 0, n->is_embed_data() ? 1 : 0, n->is_embed_label() ? 1 : 0, n->is_embed_label_delta() ? 1 : 0, n->is_section() ? 1 : 0, n->is_comment() ? 1 : 0);
+  printf("NODETYPES inst %u section %u label %u align %u data %u embedlabel %u embeddelta %u constpool %u comment %u sentinel %u jump %u func %u funcret %u invoke %u\n",
+         uint32_t(NodeType::kInst), uint32_t(NodeType::kSection), uint32_t(NodeType::kLabel), uint32_t(NodeType::kAlign), uint32_t(NodeType::kEmbedData),
+         uint32_t(NodeType::kEmbedLabel), uint32_t(NodeType::kEmbedLabelDelta), uint32_t(NodeType::kConstPool), uint32_t(NodeType::kComment), uint32_t(NodeType::kSentinel),
+         uint32_t(NodeType::kJump), uint32_t(NodeType::kFunc), uint32_t(NodeType::kFuncRet), uint32_t(NodeType::kInvoke));
+}
+
 static void catalog() {
+  node_predicates();
   // numeric values the generator / model need (tie: compared with the model's own constants on every run)
   printf("ERR InvalidDisplacement %u\n", uint32_t(Error::kInvalidDisplacement));
   printf("ERR ok %u\nERR InvalidArgument %u\nERR InvalidLabel %u\nERR InvalidSection %u\nERR LabelAlreadyBound %u\nERR InvalidOperandSize %u\nERR InvalidInstruction %u\nERR OutOfMemory %u\nERR InvalidState %u\n",
